@@ -38,6 +38,11 @@ type pipe struct {
 	held    bool // reader does not see buffered data while held
 	maxRead int  // max bytes returned per Read (0 = unlimited)
 	budget  int  // if >= 0: deliver at most this many more bytes, then rerr
+	// write stall (set by the harness on the client->server direction): after wstallAfter more bytes have been accepted,
+	// writes block until wstallUntil (a peer that stops reading: the sender's window closes), then go on
+	wstall      bool
+	wstallAfter int
+	wstallUntil time.Time
 	// accounting
 	written, read int64
 	rdl, wdl      time.Time
@@ -134,24 +139,68 @@ func (p *pipe) Read(b []byte, localClosed *atomic.Bool) (int, error) {
 }
 
 func (p *pipe) Write(b []byte, localClosed *atomic.Bool) (int, error) {
-	p.mu.Lock()
-	defer p.mu.Unlock()
-	if localClosed.Load() {
-		return 0, net.ErrClosed
+	n := 0
+	for {
+		p.mu.Lock()
+		if localClosed.Load() {
+			p.mu.Unlock()
+			return n, net.ErrClosed
+		}
+		if !p.wdl.IsZero() && !time.Now().Before(p.wdl) {
+			p.mu.Unlock()
+			return n, errTimeout
+		}
+		if p.rclosed {
+			p.mu.Unlock()
+			return n, &net.OpError{Op: "write", Net: "mem", Err: syscall.EPIPE}
+		}
+		if p.wclosed {
+			p.mu.Unlock()
+			return n, net.ErrClosed
+		}
+		room := len(b) - n
+		if p.wstall {
+			if !time.Now().Before(p.wstallUntil) {
+				p.wstall = false
+			} else if room > p.wstallAfter {
+				room = p.wstallAfter
+			}
+		}
+		if room > 0 {
+			p.buf = append(p.buf, b[n:n+room]...)
+			p.written += int64(room)
+			if p.wstall {
+				p.wstallAfter -= room
+			}
+			n += room
+			p.wake()
+		}
+		if n == len(b) {
+			p.mu.Unlock()
+			return n, nil
+		}
+		// stalled: wait for the end of the stall, the write deadline or a state change
+		ch := p.notify
+		dl := p.wdl
+		until := p.wstallUntil
+		p.mu.Unlock()
+		tc, timer, expired := deadlineChan(dl)
+		if expired {
+			return n, errTimeout
+		}
+		st := time.NewTimer(time.Until(until))
+		select {
+		case <-ch:
+		case <-st.C:
+		case <-tc:
+			st.Stop()
+			return n, errTimeout
+		}
+		st.Stop()
+		if timer != nil {
+			timer.Stop()
+		}
 	}
-	if !p.wdl.IsZero() && !time.Now().Before(p.wdl) {
-		return 0, errTimeout
-	}
-	if p.rclosed {
-		return 0, &net.OpError{Op: "write", Net: "mem", Err: syscall.EPIPE}
-	}
-	if p.wclosed {
-		return 0, net.ErrClosed
-	}
-	p.buf = append(p.buf, b...)
-	p.written += int64(len(b))
-	p.wake()
-	return len(b), nil
 }
 
 func (p *pipe) closeWrite(err error) {
@@ -345,6 +394,16 @@ func (s *ServerConn) SetChunk(n int) {
 	p := s.p.s2c
 	p.mu.Lock()
 	p.maxRead = n
+	p.mu.Unlock()
+}
+
+// StallClientWrites makes the client's writes on this connection block, after `after` more bytes were accepted, for d
+// (the peer has stopped reading and the sender's window is full); afterwards they go on as if nothing had happened.
+func (s *ServerConn) StallClientWrites(after int, d time.Duration) {
+	p := s.p.c2s
+	p.mu.Lock()
+	p.wstall, p.wstallAfter, p.wstallUntil = true, after, time.Now().Add(d)
+	p.wake()
 	p.mu.Unlock()
 }
 
